@@ -298,7 +298,13 @@ func forType(t reflect.Type, seen map[reflect.Type]bool, ignore bool, schemas ma
 				}
 				// The fields of an embedded struct are promoted (they follow in the
 				// list of visible fields) unless the json tag names the embedded field.
-				if name, _, _ := strings.Cut(field.Tag.Get("json"), ","); name == "" {
+				ft := field.Type
+				if ft.Kind() == reflect.Pointer {
+					ft = ft.Elem()
+				}
+				// An embedded field of non-struct type has no fields to promote:
+				// it is an ordinary field named after its type.
+				if name, _, _ := strings.Cut(field.Tag.Get("json"), ","); name == "" && ft.Kind() == reflect.Struct {
 					continue
 				}
 				namedEmbedded = true
